@@ -12,7 +12,8 @@ RULE = ('field lists of 0..6 parts, text and file parts interleaved, empty value
         'x boundary strings (alnum and \'+_-.) x max_memfile_size below/above the body (text inside the in-memory budget) x Content-Length or '
         'chunked framing x fragmenting stream; through Ombott.__call__. Non-trivial = more than one part or a special character or adversarial '
         'content; distinct = distinct request body.')
-REQUIRED = ['text_budget_met_within_4_bytes', 'interleaved_upload_reads', 'posts', 'text_parts', 'file_parts', 'repeated_text_names', 'repeated_file_names', 'mixed_repeated_names', 'names_with_semicolon',
+PYOPT = {'quick': 1, 'thorough': 1}     # one unit of every kind is also served by an interpreter started with -O (assert statements compiled out)
+REQUIRED = ['units_run_under_python_-O', 'text_budget_met_within_4_bytes', 'interleaved_upload_reads', 'posts', 'text_parts', 'file_parts', 'repeated_text_names', 'repeated_file_names', 'mixed_repeated_names', 'names_with_semicolon',
             'names_with_equals', 'names_with_space', 'names_with_backslash', 'non_ascii_names', 'filenames_with_semicolon', 'spooled_to_disk',
             'chunked_framing', 'adversarial_content', 'empty_file_content', 'bytes_compared', 'zero_parts']
 ASSUMPTIONS = ['names and file names contain no double quote, CR or LF and are non-empty (an empty file name is the browser\'s "no file chosen" and is treated as a text field by design)',
